@@ -38,6 +38,8 @@ type cpkg struct {
 	consts  map[string]ast.Expr
 	results map[string][]string // "T.m" or "f" -> result types
 	files   []*ast.File
+	intTypes map[string]bool // type X int
+	mapKeys map[string]int // string constants used as keys of map[string]T fields: slot index, in declaration order
 }
 
 type ctr struct {
@@ -61,7 +63,7 @@ func (c *ctr) tmp() string {
 }
 
 func loadPkg(repo, dir string) *cpkg {
-	p := &cpkg{structs: map[string][]sfield{}, consts: map[string]ast.Expr{}, results: map[string][]string{}}
+	p := &cpkg{structs: map[string][]sfield{}, consts: map[string]ast.Expr{}, results: map[string][]string{}, mapKeys: map[string]int{}, intTypes: map[string]bool{}}
 	ents, err := os.ReadDir(repo + "/" + dir)
 	if err != nil {
 		return p
@@ -86,6 +88,9 @@ func loadPkg(repo, dir string) *cpkg {
 				for _, sp := range v.Specs {
 					switch s := sp.(type) {
 					case *ast.TypeSpec:
+						if id, ok := s.Type.(*ast.Ident); ok && id.Name == "int" {
+							p.intTypes[s.Name.Name] = true
+						}
 						if st, ok := s.Type.(*ast.StructType); ok {
 							var fs []sfield
 							for _, fl := range st.Fields.List {
@@ -100,6 +105,20 @@ func loadPkg(repo, dir string) *cpkg {
 							for i, nm := range s.Names {
 								if i < len(s.Values) {
 									p.consts[nm.Name] = s.Values[i]
+									// iota: the index of the spec in its const block
+									if strings.Contains(nodeText(s.Values[i]), "iota") {
+										idx := 0
+										for k, sp2 := range v.Specs {
+											if sp2 == sp {
+												idx = k
+											}
+										}
+										val := replaceIota(s.Values[i], idx)
+										p.consts[nm.Name] = val
+									}
+									if bl, ok := s.Values[i].(*ast.BasicLit); ok && bl.Kind == token.STRING {
+										p.mapKeys[nm.Name] = len(p.mapKeys)
+									}
 								}
 							}
 						}
@@ -129,6 +148,27 @@ func loadPkg(repo, dir string) *cpkg {
 	return p
 }
 
+func replaceIota(e ast.Expr, idx int) ast.Expr {
+	switch v := e.(type) {
+	case *ast.Ident:
+		if v.Name == "iota" {
+			return &ast.BasicLit{Kind: token.INT, Value: fmt.Sprint(idx)}
+		}
+	case *ast.BinaryExpr:
+		return &ast.BinaryExpr{Op: v.Op, X: replaceIota(v.X, idx), Y: replaceIota(v.Y, idx)}
+	case *ast.ParenExpr:
+		return &ast.ParenExpr{X: replaceIota(v.X, idx)}
+	}
+	return e
+}
+
+// the struct type behind a type expression text ("T" or "*T")
+func (p *cpkg) structOf(tt string) (string, bool) {
+	tt = strings.TrimPrefix(tt, "*")
+	_, ok := p.structs[tt]
+	return tt, ok
+}
+
 func (c *ctr) fieldIndex(st, f string) (int, string) {
 	for i, fl := range c.p.structs[st] {
 		if fl.name == f {
@@ -137,6 +177,61 @@ func (c *ctr) fieldIndex(st, f string) (int, string) {
 	}
 	c.fail("unknown field " + st + "." + f)
 	return 0, ""
+}
+
+// a map[string]T field whose keys are the package's string constants: nil, or one slot per key constant
+// (a slot is nil = absent, or a one-element list holding the value)
+func (c *ctr) mapField(e ast.Expr) (string, bool) {
+	sel, ok := e.(*ast.SelectorExpr)
+	if !ok {
+		return "", false
+	}
+	id, ok := sel.X.(*ast.Ident)
+	if !ok {
+		return "", false
+	}
+	st, ok := c.structVars[id.Name]
+	if !ok {
+		return "", false
+	}
+	i, tt := c.fieldIndex(st, sel.Sel.Name)
+	if !strings.HasPrefix(tt, "map[string]") {
+		return "", false
+	}
+	return fmt.Sprintf("XIdx (XVar %s) (XInt %d)", q(id.Name), i), true
+}
+
+func (c *ctr) mapKey(e ast.Expr) int {
+	if id, ok := e.(*ast.Ident); ok {
+		if k, ok := c.p.mapKeys[id.Name]; ok {
+			return k
+		}
+	}
+	c.fail("map key is not a string constant of the package: " + nodeText(e))
+	return 0
+}
+
+// v, ok := m[k]   (v = zero value and ok = false when the map is nil or the key absent)
+func (c *ctr) mapRead(m string, k int, v, ok string) {
+	slot := fmt.Sprintf("XIdx (%s) (XInt %d)", m, k)
+	c.pre = append(c.pre, "TDef "+q(v)+" (XNilAny)", "TDef "+q(ok)+" (XBool false)",
+		fmt.Sprintf("TIf (XNot (XIsNil (%s)))\n      (TIf (XNot (XIsNil (%s)))\n      (tseq [TSet %s (XIdx (%s) (XInt 0)); TSet %s (XBool true)])\n      (TSkip))\n      (TSkip)", m, slot, q(v), slot, q(ok)))
+}
+
+// m[k] = value   (panics on a nil map, like Go)
+func (c *ctr) mapWrite(lhs *ast.IndexExpr, value string) string {
+	m, ok := c.mapField(lhs.X)
+	if !ok {
+		c.fail("assignment target: " + nodeText(lhs))
+	}
+	sel := lhs.X.(*ast.SelectorExpr)
+	id := sel.X.(*ast.Ident)
+	fi, _ := c.fieldIndex(c.structVars[id.Name], sel.Sel.Name)
+	k := c.mapKey(lhs.Index)
+	t := c.tmp()
+	return dseq([]string{"TDef " + q(t) + " (" + m + ")",
+		fmt.Sprintf("TSetIdx %s (XInt %d) (XAppend XNilSlice [%s])", q(t), k, value),
+		fmt.Sprintf("TSetIdx %s (XInt %d) (XVar %s)", q(id.Name), fi, q(t))})
 }
 
 func zeroFor(typ string) string {
@@ -150,6 +245,24 @@ func zeroFor(typ string) string {
 	}
 	return "XNilAny"
 }
+
+// zero value of a declared type: int-based named types are 0, a struct VALUE is the list of its fields' zero values
+func (c *ctr) zeroOfType(tt string) string {
+	if c.p.intTypes[tt] {
+		return "XInt 0"
+	}
+	if fs, ok := c.p.structs[tt]; ok {
+		var vals []string
+		for _, fl := range fs {
+			vals = append(vals, c.zeroOfType(fl.typ))
+		}
+		return listOf(vals)
+	}
+	return zeroFor(tt)
+}
+
+// panic(..): an expression that has no value (index 0 of the empty list)
+const explicitPanic = "TDef \"$panic\" (XIdx XNilSlice (XInt 0))"
 
 func listOf(es []string) string {
 	if len(es) == 0 {
@@ -227,7 +340,19 @@ func (c *ctr) emitCall(call *ast.CallExpr, def bool, targets []string) {
 				break
 			}
 		}
-		if id, ok := f.X.(*ast.Ident); ok && (id.Name == "tensor" || id.Name == "initializers") {
+		if id, ok := f.X.(*ast.Ident); ok && id.Name == c.recv && c.recvType != "" {
+			// a call of a function-typed FIELD of the receiver (c.SeedFunc()): the oracle applies the field's value
+			for _, fl := range c.p.structs[c.recvType] {
+				if fl.name == f.Sel.Name {
+					name = "call"
+					args = append(args, "XVar "+q(c.recv+"."+fl.name))
+				}
+			}
+			if name != "" {
+				break
+			}
+		}
+		if id, ok := f.X.(*ast.Ident); ok && (id.Name == "tensor" || id.Name == "initializers" || id.Name == "cputensor" || id.Name == "gradtrack") {
 			name = id.Name + "." + f.Sel.Name
 			break
 		}
@@ -270,7 +395,7 @@ func (c *ctr) structLit(v *ast.CompositeLit) string {
 	}
 	vals := make([]string, len(fs))
 	for i, fl := range fs {
-		vals[i] = zeroFor(fl.typ)
+		vals[i] = c.zeroOfType(fl.typ)
 	}
 	for _, el := range v.Elts {
 		kv, ok := el.(*ast.KeyValueExpr)
@@ -377,6 +502,9 @@ func (c *ctr) cx(e ast.Expr) string {
 			}
 		}
 	case *ast.CompositeLit:
+		if _, ok := c.p.structs[typeText(v.Type)]; ok {
+			return c.structLit(v)
+		}
 		if typeText(v.Type) == "[]int" {
 			var es []string
 			for _, el := range v.Elts {
@@ -385,6 +513,14 @@ func (c *ctr) cx(e ast.Expr) string {
 			return listOf(es)
 		}
 	case *ast.IndexExpr:
+		if m, ok := c.mapField(v.X); ok {
+			if c.inCond > 0 {
+				c.fail("map read under && / ||")
+			}
+			t := c.tmp()
+			c.mapRead(m, c.mapKey(v.Index), t, t+"ok")
+			return "XVar " + q(t)
+		}
 		return "XIdx (" + c.cx(v.X) + ") (" + c.cx(v.Index) + ")"
 	case *ast.BinaryExpr:
 		if v.Op == token.LAND || v.Op == token.LOR {
@@ -437,6 +573,14 @@ func (c *ctr) cx(e ast.Expr) string {
 			switch f.Name {
 			case "len":
 				return "XLen (" + c.cx(v.Args[0]) + ")"
+			case "make":
+				if strings.HasPrefix(typeText(v.Args[0]), "map[string]") && len(v.Args) == 1 {
+					slots := make([]string, len(c.p.mapKeys))
+					for i := range slots {
+						slots[i] = "XNilAny"
+					}
+					return listOf(slots)
+				}
 			case "new":
 				fs, ok := c.p.structs[typeText(v.Args[0])]
 				if !ok {
@@ -487,9 +631,9 @@ func (c *ctr) cx(e ast.Expr) string {
 		if c.isFloat(v) {
 			c.floatVars[t] = true
 		}
-		if rs := c.calleeResults(v); len(rs) == 1 && strings.HasPrefix(rs[0], "*") {
-			if _, ok := c.p.structs[rs[0][1:]]; ok {
-				c.structVars[t] = rs[0][1:]
+		if rs := c.calleeResults(v); len(rs) == 1 {
+			if st, ok := c.p.structOf(rs[0]); ok {
+				c.structVars[t] = st
 			}
 		}
 		c.emitCall(v, true, []string{t})
@@ -561,6 +705,11 @@ func (c *ctr) assign1(lhs ast.Expr, rhs ast.Expr, define bool) string {
 		kw = "TDef"
 	}
 	switch l := lhs.(type) {
+	case *ast.IndexExpr:
+		if _, ok := c.mapField(l.X); ok {
+			v := c.cx(rhs)
+			return c.flush(c.mapWrite(l, v))
+		}
 	case *ast.StarExpr:
 		if id, ok := l.X.(*ast.Ident); ok {
 			if _, ok := c.structVars[id.Name]; ok {
@@ -578,9 +727,9 @@ func (c *ctr) assign1(lhs ast.Expr, rhs ast.Expr, define bool) string {
 	}
 	name := c.target(lhs)
 	if call, ok := rhs.(*ast.CallExpr); ok && c.isOracleCall(call) {
-		if rs := c.calleeResults(call); len(rs) == 1 && strings.HasPrefix(rs[0], "*") {
-			if _, ok := c.p.structs[rs[0][1:]]; ok {
-				c.structVars[name] = rs[0][1:]
+		if rs := c.calleeResults(call); len(rs) == 1 {
+			if st, ok := c.p.structOf(rs[0]); ok {
+				c.structVars[name] = st
 			}
 		}
 		if c.isFloat(call) {
@@ -634,6 +783,12 @@ func (c *ctr) stmt(s ast.Stmt) (res string) {
 		var out []string
 		for _, sp := range gd.Specs {
 			vs := sp.(*ast.ValueSpec)
+			if len(vs.Values) == 0 && vs.Type != nil {
+				for _, n := range vs.Names {
+					out = append(out, "TDef "+q(n.Name)+" ("+c.zeroOfType(typeText(vs.Type))+")")
+				}
+				continue
+			}
 			if len(vs.Values) != len(vs.Names) {
 				c.fail("declaration: " + nodeText(s))
 			}
@@ -663,22 +818,34 @@ func (c *ctr) stmt(s ast.Stmt) (res string) {
 					c.fail("assignment: " + nodeText(s))
 				}
 				var ts []string
+				var post []string
 				rs := c.calleeResults(call)
 				for i, l := range v.Lhs {
 					if st, ok := l.(*ast.StarExpr); ok {
 						_ = st
 						c.fail("assignment through a pointer: " + nodeText(l))
 					}
+					if ix, ok := l.(*ast.IndexExpr); ok {
+						if _, ok := c.mapField(ix.X); ok {
+							t := c.tmp()
+							ts = append(ts, t)
+							post = append(post, c.mapWrite(ix, "XVar "+q(t)))
+							continue
+						}
+					}
 					n := c.target(l)
 					ts = append(ts, n)
-					if i < len(rs) && strings.HasPrefix(rs[i], "*") {
-						if _, ok := c.p.structs[rs[i][1:]]; ok {
-							c.structVars[n] = rs[i][1:]
+					if i < len(rs) {
+						if st, ok := c.p.structOf(rs[i]); ok {
+							c.structVars[n] = st
 						}
 					}
 				}
-				c.emitCall(call, v.Tok == token.DEFINE, ts)
-				return c.flush("")
+				c.emitCall(call, v.Tok == token.DEFINE || len(post) > 0, ts)
+				if len(post) == 0 {
+					return c.flush("")
+				}
+				return c.flush(dseq(post))
 			}
 			if len(v.Lhs) == len(v.Rhs) {
 				var out []string
@@ -691,7 +858,20 @@ func (c *ctr) stmt(s ast.Stmt) (res string) {
 		c.fail("assignment: " + nodeText(s))
 	case *ast.IfStmt:
 		if v.Init != nil {
-			c.fail("if with init: " + nodeText(v.Init))
+			as, ok := v.Init.(*ast.AssignStmt)
+			okForm := ok && as.Tok == token.DEFINE && len(as.Lhs) == 2 && len(as.Rhs) == 1
+			var ix *ast.IndexExpr
+			if okForm {
+				ix, okForm = as.Rhs[0].(*ast.IndexExpr)
+			}
+			if !okForm {
+				c.fail("if with init: " + nodeText(v.Init))
+			}
+			m, isMap := c.mapField(ix.X)
+			if !isMap {
+				c.fail("if with init: " + nodeText(v.Init))
+			}
+			c.mapRead(m, c.mapKey(ix.Index), c.target(as.Lhs[0]), c.target(as.Lhs[1]))
 		}
 		cond := c.cx(v.Cond)
 		pre := c.pre
@@ -702,6 +882,101 @@ func (c *ctr) stmt(s ast.Stmt) (res string) {
 		}
 		body := "TIf (" + cond + ")\n      (" + c.block(v.Body) + ")\n      (" + els + ")"
 		return dseq(append(pre, body))
+	case *ast.ExprStmt:
+		if call, ok := v.X.(*ast.CallExpr); ok && nodeText(call.Fun) == "panic" {
+			return explicitPanic
+		}
+		c.fail("statement: " + nodeText(s))
+	case *ast.SwitchStmt:
+		// switch tag { case K: ...; default: ... }  (no fallthrough): a chain of comparisons in source order
+		if v.Init != nil || v.Tag == nil {
+			c.fail("switch: " + nodeText(s))
+		}
+		tag := c.cx(v.Tag)
+		pre := c.pre
+		c.pre = nil
+		deflt := "TSkip"
+		type arm struct{ cond, body string }
+		var arms []arm
+		for _, cl := range v.Body.List {
+			cc := cl.(*ast.CaseClause)
+			body := c.block(&ast.BlockStmt{List: cc.Body})
+			if cc.List == nil {
+				deflt = body
+				continue
+			}
+			var conds []string
+			for _, e := range cc.List {
+				conds = append(conds, "XBin GoIR.OEq ("+tag+") ("+c.cx(e)+")")
+			}
+			cond := conds[0]
+			for _, x := range conds[1:] {
+				cond = "XOr (" + cond + ") (" + x + ")"
+			}
+			arms = append(arms, arm{cond, body})
+		}
+		out := deflt
+		for i := len(arms) - 1; i >= 0; i-- {
+			out = "TIf (" + arms[i].cond + ")\n      (" + arms[i].body + ")\n      (" + out + ")"
+		}
+		return dseq(append(pre, out))
+	case *ast.TypeSwitchStmt:
+		// switch x.(type) { case *cputensor.CPUTensor: ..; case nil: ..; default: .. }: the oracle call "typeof"
+		// classifies the interface value (0 = *cputensor.CPUTensor, 1 = nil, 2 = anything else)
+		es, ok := v.Assign.(*ast.ExprStmt)
+		if !ok || v.Init != nil {
+			c.fail("type switch: " + nodeText(s))
+		}
+		ta, ok := es.X.(*ast.TypeAssertExpr)
+		if !ok {
+			c.fail("type switch: " + nodeText(s))
+		}
+		subj := c.cx(ta.X)
+		t := c.tmp()
+		c.pre = append(c.pre, fmt.Sprintf("TExt true [%s] \"typeof\" [%s]", q(t), subj))
+		pre := c.pre
+		c.pre = nil
+		deflt := "TSkip"
+		type arm struct{ cond, body string }
+		var arms []arm
+		for _, cl := range v.Body.List {
+			cc := cl.(*ast.CaseClause)
+			body := c.block(&ast.BlockStmt{List: cc.Body})
+			if cc.List == nil {
+				deflt = body
+				continue
+			}
+			if len(cc.List) != 1 {
+				c.fail("type switch case: " + nodeText(cc))
+			}
+			var code int
+			switch nodeText(cc.List[0]) {
+			case "*cputensor.CPUTensor":
+				code = 0
+			case "nil":
+				code = 1
+			default:
+				c.fail("type switch case: " + nodeText(cc.List[0]))
+			}
+			arms = append(arms, arm{fmt.Sprintf("XBin GoIR.OEq (XVar %s) (XInt %d)", q(t), code), body})
+		}
+		out := deflt
+		for i := len(arms) - 1; i >= 0; i-- {
+			out = "TIf (" + arms[i].cond + ")\n      (" + arms[i].body + ")\n      (" + out + ")"
+		}
+		return dseq(append(pre, out))
+	case *ast.RangeStmt:
+		k, x := "_", "_"
+		if v.Key != nil {
+			k = nodeText(v.Key)
+		}
+		if v.Value != nil {
+			x = nodeText(v.Value)
+		}
+		rng := c.cx(v.X)
+		pre := c.pre
+		c.pre = nil
+		return dseq(append(pre, "TRange "+q(k)+" "+q(x)+" ("+rng+")\n      ("+c.block(v.Body)+")"))
 	case *ast.ReturnStmt:
 		if len(v.Results) == 0 {
 			var rs []string
@@ -756,7 +1031,11 @@ func compTargets() []ctarget {
 	add("SGD", "component/optimizers", "", "NewSGD", "toValidSGDConfig")
 	add("SGD", "component/optimizers", "SGD", "toValidInputs")
 	add("FC", "component/layers", "FC", "Forward", "toValidInputs")
-	add("FC", "component/layers", "", "validateInitializedWeights")
+	add("FC", "component/layers", "", "validateInitializedWeights", "NewFC", "toValidFCConfig")
+	add("Input", "component/layers", "", "NewInput")
+	add("Input", "component/layers", "Input", "Forward", "validateInputs")
+	add("tensor", "tensor", "", "Full", "Zeros", "Ones", "Eye", "RandU", "RandN", "TensorOf", "Concat", "BackPropagate",
+		"prepareConfig", "validateConfig", "validateTensorDevice", "validateTensorsDeviceUnity")
 	for _, a := range []string{"Relu", "LeakyRelu", "Sigmoid", "Tanh", "Softmax"} {
 		add(a, "component/layers/activations", a, "Forward", "toValidInputs")
 	}
@@ -778,6 +1057,12 @@ func emitComp(repo, outV string) error {
 		p := pkgs[tg.dir]
 		if p == nil {
 			p = loadPkg(repo, tg.dir)
+			if tg.dir == "component/layers" {
+				// struct literals of the initializers package (&initializers.XavierUniformConfig{..})
+				for name, fs := range loadPkg(repo, "component/initializers").structs {
+					p.structs["initializers."+name] = fs
+				}
+			}
 			pkgs[tg.dir] = p
 		}
 		var fd *ast.FuncDecl
@@ -833,10 +1118,8 @@ func emitComp(repo, outV string) error {
 				if tt == "float64" {
 					c.floatVars[n.Name] = true
 				}
-				if strings.HasPrefix(tt, "*") {
-					if _, ok := p.structs[tt[1:]]; ok {
-						c.structVars[n.Name] = tt[1:]
-					}
+				if st, ok := p.structOf(tt); ok {
+					c.structVars[n.Name] = st
 				}
 			}
 		}
@@ -849,12 +1132,10 @@ func emitComp(repo, outV string) error {
 					if tt == "float64" {
 						c.floatVars[n.Name] = true
 					}
-					if strings.HasPrefix(tt, "*") {
-						if _, ok := p.structs[tt[1:]]; ok {
-							c.structVars[n.Name] = tt[1:]
-						}
+					if st, ok := p.structOf(tt); ok {
+						c.structVars[n.Name] = st
 					}
-					z := zeroFor(tt)
+					z := c.zeroOfType(tt)
 					if tt == "error" {
 						z = "XInt 0"
 					}
